@@ -33,10 +33,11 @@ def _macro_case_src(case) -> tuple[str, dict]:
             sig.append(f"{name}: '{d}'")
     call = []
     for a in case["call"]:
+        val = "nil" if a[-1] is None else f"'{a[-1]}'"  # (None: the argument is the literal nil)
         if a[0] == "pos":
-            call.append(f"'{a[1]}'")
+            call.append(val)
         else:
-            call.append(f"{a[1]}: '{a[2]}'")
+            call.append(f"{a[1]}: {val}")
     src = (
         "{% assign dv = 'early' %}{% macro m " + ", ".join(sig) + " %}" + BODY + "{% endmacro %}"
         "{% assign dv = 'late' %}{% call m " + ", ".join(call) + " %}"
@@ -45,13 +46,15 @@ def _macro_case_src(case) -> tuple[str, dict]:
 
 
 def _macro_expected(case) -> list:
-    """All accepted outputs (duplicate keyword names: first or last value)."""
+    """All accepted outputs."""
     params = [n for n, _ in case["params"]]
     defaults = dict(case["params"])
     pos = [a[1] for a in case["call"] if a[0] == "pos"]
     kws = [(a[1], a[2]) for a in case["call"] if a[0] == "kw"]
     outs = []
-    for pick_last in (True, False):
+    # a repeated keyword name: arguments are bound one after the other in written order, so the last one stands
+    # (what the pinned tree does everywhere, and the reading of "positional arguments in order, then keyword arguments by name")
+    for pick_last in (True,):
         bound: dict = {}
         for name, val in zip(params, pos):
             bound[name] = val
@@ -74,8 +77,9 @@ def _macro_expected(case) -> list:
                 vals[name] = ""  # undefined (macro scope does not see the caller's locals)
                 if name not in params and name in ("p", "q"):
                     vals[name] = f"GLOBAL-{name}"  # ...but it does see template globals
-        kw_s = "".join(f"{k}:{v};" for k, v in kwargs.items())
-        outs.append(f"p=[{vals['p']}] q=[{vals['q']}] r=[{vals['r']}] args=[{','.join(extra_pos)}] kwargs=[{kw_s}]")
+        nil = lambda x: "" if x is None else x  # noqa: E731  (a name bound to nil is bound: it prints nothing, whatever an outer scope holds)
+        kw_s = "".join(f"{k}:{nil(v)};" for k, v in kwargs.items())
+        outs.append(f"p=[{nil(vals['p'])}] q=[{nil(vals['q'])}] r=[{nil(vals['r'])}] args=[{','.join(extra_pos)}] kwargs=[{kw_s}]")
     return outs
 
 
@@ -137,7 +141,7 @@ def _with_expected(items, scopes: list, top: dict, out: list | None = None) -> s
             if lookup("i") == it[1]:
                 raise _Interrupt(it[0])
         else:
-            new = {k: (e[1] if e[0] == "lit" else lookup(e[1])) for k, e in it[1]}
+            new = {k: (e[1] if e[0] == "lit" else "" if e[0] == "nil" else lookup(e[1])) for k, e in it[1]}
             scopes.append(new)
             try:
                 _with_expected(it[2], scopes, top, out)
@@ -240,6 +244,12 @@ def macro_cases(tier: str):
                     for names in itertools.product(kwnames, repeat=nkw):
                         kws = [("kw", n, f"k{i}") for i, n in enumerate(names)]
                         yield {"kind": "macro", "params": [list(p) for p in params], "call": [list(a) for a in pos + kws]}
+                        # the same call with nil for one argument (a positional one that meets a parameter, or a keyword one)
+                        for j, a in enumerate(pos + kws):
+                            if (a[0] == "pos" and j < nparams) or (a[0] == "kw" and (j - npos) % 2 == 0):
+                                call = [list(x) for x in pos + kws]
+                                call[j][-1] = None
+                                yield {"kind": "macro", "params": [list(p) for p in params], "call": call}
                         if kws and pos and not quick:
                             # a keyword argument written before the positional ones
                             yield {"kind": "macro", "params": [list(p) for p in params], "call": [list(a) for a in kws[:1] + pos + kws[1:]]}
@@ -278,7 +288,7 @@ def with_cases(draw):
                 out.append(["loop", r.choice([1, 2, 3]), items(depth - 1, True)])
             else:
                 ks = r.sample(names, r.randint(1, 3))
-                args = [[k, (["lit", f"w{depth}{k}"] if r.random() < 0.5 else ["var", r.choice(names)])] for k in ks]
+                args = [[k, (["lit", f"w{depth}{k}"] if r.random() < 0.45 else ["var", r.choice(names + ["nosuch"])] if r.random() < 0.8 else ["nil", "nil"])] for k in ks]
                 out.append(["with", args, items(depth - 1, in_loop)])
         return out
 
@@ -309,5 +319,5 @@ def finish_kwargs(ctx: core.Ctx, tier: str) -> dict:
             "Non-trivial (macro) = surplus arguments, a default fallback or a keyword overriding a positional."
         ),
         "exhaustive": True,
-        "assumptions": ["for duplicate keyword names either the first or the last value is accepted"],
+        "assumptions": ["for a repeated keyword name the last value stands (arguments are bound in written order; the pinned tree does so throughout)"],
     }
